@@ -371,14 +371,14 @@ def p_brackets_3(t):
     if not x86_afs.ad in t[3]:
         t[3][x86_afs.ad] = True
     t[0] = t[3]
-    t[0][x86_afs.imm] = int(int32(uint32(int(t[1]))))
+    t[0][x86_afs.imm] = t[0].get(x86_afs.imm, 0) + int(int32(uint32(int(t[1]))))
 
 def p_brackets_4(t):
     '''brackets : MINUS NUMBER LBRA expression RBRA'''
     if not x86_afs.ad in t[4]:
         t[4][x86_afs.ad] = True
     t[0] = t[4]
-    t[0][x86_afs.imm] = - int(int32(uint32(int(t[2]))))
+    t[0][x86_afs.imm] = t[0].get(x86_afs.imm, 0) - int(int32(uint32(int(t[2]))))
 
 def p_brackets_5(t):
     '''brackets : NUMBER PLUS symbol LBRA expression RBRA '''
@@ -387,7 +387,7 @@ def p_brackets_5(t):
     t[0] = t[5]
     for f in t[3]:
         t[0][f] = t[3][f]
-    t[0][x86_afs.imm] = int(int32(uint32(int(t[1]))))
+    t[0][x86_afs.imm] = t[5].get(x86_afs.imm, 0) + int(int32(uint32(int(t[1]))))
 
 def p_brackets_6(t):
     '''brackets : MINUS NUMBER PLUS symbol LBRA expression RBRA %prec UMINUS'''
@@ -396,7 +396,7 @@ def p_brackets_6(t):
     t[0] = t[6]
     for f in t[4]:
         t[0][f] = t[4][f]
-    t[0][x86_afs.imm] = - int(int32(uint32(int(t[2]))))
+    t[0][x86_afs.imm] = t[6].get(x86_afs.imm, 0) - int(int32(uint32(int(t[2]))))
 
 import ply.yacc as yacc
 import tempfile
